@@ -519,6 +519,8 @@ def c09(tier, seed):
         {'line': 'export A="a b"; ./envp', 'files': F, 'expect_stdout': '[a b]\n', 'area': 'vars:export-value-with-space'},
         {'line': 'S="x y"; export T=$S; printenv T; V=\'it"s\'; export W="$V"; printenv W', 'files': F, 'expect_stdout': 'x y\nit"s\n', 'area': 'vars:export-value-from-an-expansion'},
         {'line': 'export C="p ~ q"; printenv C; export F="~/q"; printenv F; export G=a~/b; printenv G; export D=~/x; ./pargs "$D" "$HOME/x"', 'files': F, 'expect_stdout_prefix': 'p ~ q\n~/q\na~/b\n', 'area': 'vars:export-value-with-a-tilde'},
+        {'line': 'read a b <<< "x   y    z  "; ./pargs "$a" "$b"; IFS=: read a b <<< x:y:z; ./pargs "$a" "$b"; IFS=: read a b c <<< "1::3:4"; ./pargs "$a" "$b" "$c"; read r <<< "  p   q "; ./pargs "$r"', 'files': F,
+         'expect_stdout': _argv(['x', 'y    z']) + _argv(['x', 'y:z']) + _argv(['1', '', '3:4']) + _argv(['p   q']), 'area': 'read:the-remainder-is-the-rest-of-the-line-as-it-stands'},
         {'line': 'export B=old; read A B <<< "one two three"; printenv B; ./pargs "$A" "$B"', 'files': F, 'expect_stdout': 'two three\n' + _argv(['one', 'two three']), 'area': 'read:into-an-exported-name'},
         {'line': 'read a b c <<< "1 2 3 4"; ./pargs "$a" "$b" "$c"', 'files': F, 'expect_stdout': _argv(['1', '2', '3 4']), 'area': 'read'},
         {'line': 'read a b <<< "1"; ./pargs "[$a]" "[$b]"', 'files': F, 'expect_stdout': _argv(['[1]', '[]']), 'area': 'read'},
